@@ -190,9 +190,9 @@ def server_run(ctx):
 def run_C07(ctx):
     if ctx.replay is not None:
         eng = ctx.replay["engine"]
-        viol = {"server": server_run, "client": lambda c: client_run(c, False)}.get(eng, server_run)(ctx)
+        viol = {"server": server_run, "client": lambda c: client_run(c, False), "bereq": bereq_run}.get(eng, server_run)(ctx)
     else:
-        viol = server_run(ctx) + client_run(ctx, want_mutations=False)
+        viol = server_run(ctx) + client_run(ctx, want_mutations=False) + bereq_run(ctx, hostile=False)
     ctx.exhaustive = True
     return ctx.finish("model_checking",
         "stimuli = every (negotiation state, request) transition of MC_BackendServer replayed by a raw peer on the real BackendReqHandler "
@@ -205,7 +205,11 @@ def run_C07(ctx):
 
 
 def run_C06(ctx):
-    viol = client_run(ctx, want_mutations=True)
+    if ctx.replay is not None:
+        eng = ctx.replay["engine"]
+        viol = client_run(ctx, True) if eng == "client" else gpu_run(ctx) if eng == "gpu" else bereq_run(ctx, hostile=True, functional=False)
+    else:
+        viol = client_run(ctx, want_mutations=True) + bereq_run(ctx, hostile=True, functional=False) + gpu_run(ctx, hostile=True)
     return ctx.finish("exploration",
         "for every (frontend negotiation state, reply- or ack-awaiting call) transition of MC_Client the raw peer answers with the correct "
         "reply mutated in one class (code, REPLY flag, version, reserved bits, size, truncated body, +1/+2/-1 descriptors, invalid body, "
@@ -253,9 +257,24 @@ def run_C08(ctx):
     for st in stim:
         step = dict(c=st["c"], nr=False, h="ok", v=[], var="fixed", seg=st["seg"], cut=st["cut"])
         cases.append(dict(dev=dict(vf=[30], pf=[]), steps=SRV_PREFIX + [step]))
-    cases = replay_or(ctx, "server", cases)
+    # the same splits / cuts for the backend-initiated request server (FrontendReqHandler)
+    bcases = []
+    for st in stim:
+        ks = {28: (6, 7, 8), 52: (9, 10)}.get(st["len"], ()) if st["c"] in (6, 9) else ()
+        for k in ks:
+            bcases.append(dict(mode="rawsrv", steps=[dict(t="flag", f="hra", b=True),
+                                                     dict(t="req", k=k, r="zero", nr=True, seg=st["seg"], cut=st["cut"])]))
+    viol = []
+    if ctx.replay is None or ctx.replay["engine"] == "bereq":
+        bcases = replay_or(ctx, "bereq", bcases)
+        trb = ctx.harness("bereq", bcases, shards=12)
+        viol += ctx.tlc_tv("TV_BackendReq", trb, "bereq")
+        ctx.count_distinct(trb, lambda e: ("be", e.get("k"), tuple(e.get("seg", [])), e.get("cut")), lambda e: e.get("ev") == "breq")
+    if ctx.replay is not None and ctx.replay["engine"] != "server":
+        cases = []
+    cases = replay_or(ctx, "server", cases) if ctx.replay is None or ctx.replay["engine"] == "server" else []
     tr = ctx.harness("server", cases, shards=12)
-    viol = ctx.tlc_tv("TV_BackendServer", tr, "server")
+    viol += ctx.tlc_tv("TV_BackendServer", tr, "server")
     ctx.count_distinct(tr, lambda e: (e["c"], tuple(e["seg"]), e["cut"]), lambda e: e.get("seg") or e.get("cut", -1) >= 0)
     ctx.sample(tr, 3, skip=3)
     return ctx.finish("fault_enumeration",
@@ -264,4 +283,99 @@ def run_C08(ctx):
         "byte-by-byte delivery, and every cut offset 0..len-1 followed by EOF; each segment is really delivered separately (the peer waits "
         "until the receiver drained the previous one); distinct = (request code, split points, cut offset)",
         ASSUME_COMMON + ["unix stream sockets do not merge a segment the receiver has not been offered yet (the peer waits for FIONREAD==0 before writing the next segment)"],
+        viol)
+
+
+# ---------------------------------------------------------------------------------------------
+# Backend-initiated requests: C18 (+ proxy/request-server parts of C06, C07, C01, C08)
+def bereq_run(ctx, hostile=False, functional=True):
+    depth = 4 if ctx.tier == "quick" else 5
+    cases = ctx.tlc_mc("MC_BackendReq", "MC_BackendReq_" + ctx.tier)
+    hc = list(ctx.hcases)
+    sess = []
+    if functional:
+        full = [c for c in cases if len(c["steps"]) == depth - 0]
+        if ctx.tier == "quick":
+            full = full[::(max(1, len(full) // 6000))]
+        for i, c in enumerate(full):
+            steps = c["steps"]
+            sess.append(dict(mode="pair", adapter="mutex" if i % 3 else "direct", steps=steps))
+            if i % 2 == 0:
+                sess.append(dict(mode="rawpeer", steps=steps))
+            else:
+                # raw peer -> request server: NEED_REPLY as the proxy would set it, and the opposite
+                ra = False
+                st2 = []
+                for s_ in steps:
+                    if s_["t"] == "flag" and s_["f"] == "ra":
+                        ra = s_["b"]
+                    st2.append(dict(s_, nr=(ra if i % 4 == 1 else not ra)) if s_["t"] == "req" else s_)
+                sess.append(dict(mode="rawsrv", steps=st2))
+    if hostile:
+        reps = 3 if ctx.tier == "quick" else 20
+        for c in hc:
+            n = reps if any(s_.get("var") == "random" or s_.get("peer") == "random" for s_ in c["steps"]) else (1 if ctx.tier == "quick" else 3)
+            for _ in range(n):
+                sess.append(dict(c))
+    sess = replay_or(ctx, "bereq", sess)
+    tr = ctx.harness("bereq", sess, shards=12)
+    viol = ctx.tlc_tv("TV_BackendReq", tr, "bereq")
+    ctx.count_distinct(tr, lambda e: (e.get("mode"), e.get("k"), e.get("r"), e.get("var"), e.get("peer"), e.get("res"), e.get("ncalls"), e.get("nout")),
+                       lambda e: e.get("ev") == "breq" and (e["ncalls"] > 0 or e["nout"] > 0 or not e["res_ok"] or e["nwire"] > 0))
+    ctx.sample(tr, 3, skip=6)
+    return viol
+
+
+def run_C18(ctx):
+    viol = bereq_run(ctx, hostile=False)
+    return ctx.finish("model_checking",
+        "BackendReqChannel.tla: all histories over {flag changes (reply-ack, shared-object, shmem on proxy; reply-ack on server), requests "
+        "(5 kinds x handler result zero/non-zero/errno/no-errno)} to the depth in the cfg, model-checked (in-step, gating) and replayed in "
+        "three bindings: real proxy <-> real FrontendReqHandler (recording handler, Mutex and direct adapters), real proxy <-> raw peer "
+        "(bytes, scripted ack), raw peer -> real FrontendReqHandler (ack bytes); concrete UUIDs/offsets/lengths/flags are drawn from the "
+        "64-bit boundary lattice; non-trivial = handler called, ack written, bytes on the wire or an error; distinct = (binding, kind, result, outcome)",
+        ASSUME_COMMON + ["proxy awaiting acks with a server configured not to write them (ra and not hra) is an application misconfiguration and excluded"],
+        viol)
+
+
+# ---------------------------------------------------------------------------------------------
+# GPU channel
+def gpu_run(ctx, hostile=True):
+    cases = ctx.tlc_mc("MC_Gpu", "MC_Gpu_" + ctx.tier, workers=1)
+    hc = list(ctx.hcases)
+    reps = 3 if ctx.tier == "quick" else 25
+    sess = []
+    for r in range(reps):
+        sess.append(dict(steps=[dict(c) for c in cases]))          # one long conformant session
+        sess.extend(dict(steps=[dict(c)]) for c in cases)           # and each call on a fresh connection
+    if hostile:
+        for c in hc:
+            for r in range(reps if c["peer"] == "random" else 1 + reps // 5):
+                sess.append(dict(steps=[dict(c)]))
+    sess = replay_or(ctx, "gpu", sess)
+    tr = ctx.harness("gpu", sess, shards=12)
+    viol = ctx.tlc_tv("TV_Gpu", tr, "gpu")
+    ctx.count_distinct(tr, lambda e: ("gpu", e.get("op"), e.get("peer"), e.get("dlen"), e.get("fd"), e.get("res")),
+                       lambda e: e.get("ev") == "gcall")
+    ctx.sample(tr, 1, skip=2)
+    return viol
+
+
+def run_C01(ctx):
+    if ctx.replay is not None:
+        eng = ctx.replay["engine"]
+        viol = {"server": server_run, "client": lambda c: client_run(c, False), "bereq": bereq_run,
+                "gpu": lambda c: gpu_run(c, False)}[eng](ctx)
+    else:
+        viol = server_run(ctx) + client_run(ctx, want_mutations=False) + bereq_run(ctx) + gpu_run(ctx, hostile=False)
+    return ctx.finish("exploration",
+        "WireFormat.tla (transcribed from the vhost-user / vhost-user-gpu documents) is the byte-level oracle, evaluated by TLC on recorded "
+        "traces: (a) every frontend operation in every negotiation state (MC_Client transitions): bytes, flags, size, descriptor count / "
+        "identity / attachment to the first byte as captured by an independent raw peer, and values decoded from the peer's conformant "
+        "replies; (b) every request of MC_BackendServer's transitions encoded by the independent packer: arguments/files seen by the handler "
+        "and reply/ack bytes for handler-chosen values (64-bit lattice + random); (c) backend-initiated requests and acks in three bindings; "
+        "(d) all 12 GPU requests incl. payload lengths 0..70000 (300000 thorough) and both reply directions; distinct = (engine, operation, "
+        "class, outcome)",
+        ASSUME_COMMON + ["payload of the SET_LOG_BASE reply and tail padding of the inflight message are not fixed by the document and not judged",
+                         "the hosts supported are little-endian; 'native-endian' is checked as little-endian"],
         viol)
